@@ -4,6 +4,7 @@ import (
 	"fmt"
 	"path"
 	"sort"
+	"strconv"
 	"strings"
 
 	"grog/internal/zzsim/simrt"
@@ -243,6 +244,13 @@ func genUniverse(c *simrt.Choices, g genCfg) *Universe {
 			s.Outs = []OutSpec{{Kind: "file", Path: "out/" + s.Name + ".m0.out"}, {Kind: "file", Path: "out/" + s.Name + ".m1.out"}}
 		}
 		s.DurMS = []int{0, 0, 1, 5, 5}[c.Choose(5, "dur")]
+		s.InPlace = chance(c, 1, 2, "in-place")
+		if g.Features["trapterm"] && chance(c, 1, 3, "trap-term") {
+			s.TrapTerm = true
+			if s.DurMS < 5 {
+				s.DurMS = []int{5, 400, 2500}[c.Choose(3, "trap-dur")]
+			}
+		}
 		if g.Features["checks"] && chance(c, 1, 6, "check") {
 			s.Checks = []CheckSpec{{Key: "cond_" + s.Name, Expect: pick(c, "check-expect", "ready", "")}}
 			s.Establish = !chance(c, 1, 5, "no-establish")
@@ -258,6 +266,9 @@ func genUniverse(c *simrt.Choices, g genCfg) *Universe {
 		}
 		if g.Features["timeouts"] && s.TimeoutMS == 0 && chance(c, 1, 3, "timeout") {
 			s.TimeoutMS = 1000
+		}
+		if s.TimeoutMS > 0 && s.Fail != "slow" && s.DurMS > s.TimeoutMS/4 {
+			s.DurMS = s.TimeoutMS / 4 // a slow trapping command stays well inside its timeout
 		}
 		u.Specs[s.Label()] = s
 		order = append(order, s.Label())
@@ -275,6 +286,25 @@ func genUniverse(c *simrt.Choices, g genCfg) *Universe {
 			join.Deps = append(join.Deps, tw.Label())
 		}
 		u.Specs[join.Label()] = join
+	}
+	if g.Features["nonhermetic"] {
+		// sinks only: nothing (no target, no alias) refers to a non-hermetic target
+		used := map[string]bool{}
+		for _, sp := range u.Specs {
+			for _, d := range sp.Deps {
+				used[d] = true
+			}
+		}
+		for _, t := range u.Aliases {
+			used[t] = true
+		}
+		u.Ext["epoch"] = "1"
+		for _, l := range u.Labels() {
+			sp := u.Specs[l]
+			if !used[l] && len(sp.Outs) > 0 && sp.Proj != "parity" && sp.Proj != "mirror" && chance(c, 1, 2, "non-hermetic") {
+				sp.NonHermetic = true
+			}
+		}
 	}
 	return u
 }
@@ -350,6 +380,9 @@ func genEdit(c *simrt.Choices, u *Universe, g genCfg, snapshots []*Universe) (*U
 	}
 	if g.Features["tags"] && g.Features["nocache-build"] {
 		kinds = append(kinds, "toggle-nocache")
+	}
+	if g.Features["nonhermetic"] {
+		kinds = append(kinds, "epoch-tick", "epoch-tick")
 	}
 	k := kinds[c.Choose(len(kinds), "edit-kind")]
 	n := u.Clone()
@@ -497,7 +530,7 @@ func genEdit(c *simrt.Choices, u *Universe, g genCfg, snapshots []*Universe) (*U
 		s := lab()
 		var cands []string
 		for _, l := range labels {
-			if l != s.Label() && !n.dependsOn(l, s.Label()) && !n.Specs[l].IsTest() && !n.Specs[l].HasTag("testonly") {
+			if l != s.Label() && !n.dependsOn(l, s.Label()) && !n.Specs[l].IsTest() && !n.Specs[l].HasTag("testonly") && !n.Specs[l].NonHermetic {
 				cands = append(cands, l)
 			}
 		}
@@ -543,7 +576,7 @@ func genEdit(c *simrt.Choices, u *Universe, g genCfg, snapshots []*Universe) (*U
 			// users of a must not end up depending on themselves
 			var cands []string
 			for _, l := range labels {
-				ok := !n.Specs[l].IsTest() && !n.Specs[l].HasTag("testonly")
+				ok := !n.Specs[l].IsTest() && !n.Specs[l].HasTag("testonly") && !n.Specs[l].NonHermetic
 				for _, user := range labels {
 					for _, d := range n.Specs[user].Deps {
 						if d == a || n.Aliases[d] == a {
@@ -596,6 +629,11 @@ func genEdit(c *simrt.Choices, u *Universe, g genCfg, snapshots []*Universe) (*U
 			sp.Ver++
 			ed.Target = sp.Label()
 		}
+	case "epoch-tick":
+		// the undeclared environment moves on: no cache key changes
+		e, _ := strconv.Atoi(n.Ext["epoch"])
+		n.Ext["epoch"] = strconv.Itoa(e + 1)
+		ed.Detail = n.Ext["epoch"]
 	case "toggle-nocache":
 		sp := lab()
 		var tags []string
